@@ -119,7 +119,18 @@ def run(ctx):
         tree = treegen.gen_tree(rng, base, nroots=nroots, nfiles=5 + rng.below(30), hardlinks=True,
                                 sizes=treegen.SMALL_SIZES + [16384, 65536, 70000],
                                 names="hostile" if rng.chance(1, 3) else "plain")
-        roots = tree.roots
+        roots = list(tree.roots)
+        # input paths of different depths (a shallow root given BEFORE a deeper one) and nested input paths: the order of the
+        # sub-groups is the order given, whatever the depth
+        if nroots >= 2 and rng.chance(2, 3):
+            nested = rng.chance(1, 3)
+            host = roots[0] if nested else roots[1]
+            subdirs = sorted({os.path.dirname(f["path"]) for f in tree.files
+                              if os.path.dirname(f["path"]).startswith(host + b"/")}, key=lambda d: (-d.count(b"/"), d))
+            if subdirs:
+                deep = subdirs[rng.below(min(3, len(subdirs)))]
+                roots = [roots[0], deep] + roots[2:]
+                ctx.bump("root_depths", "nested" if nested else "shallow_before_deeper")
         # twin names differing only in a byte that is not valid UTF-8 (same directory, same content): the listing order
         # must be the derived Path order whatever the inode / arrival order
         twin_dir = None
@@ -139,6 +150,8 @@ def run(ctx):
         if nroots >= 2:
             optsets += [["--isolate"], ["--isolate", "--rf-under", "2"]] if nroots >= 2 else []
         opts = rng.choice(optsets)
+        if roots != list(tree.roots) and rng.chance(2, 3):
+            opts = rng.choice([["--isolate"], ["--isolate", "--rf-under", "2"], ["--isolate", "--rf-over", "0"]])
         env = {"FCLONES_VERIF_DISK_KIND": "ssd"}
         rf, kind = 1, "O"
         if "--rf-over" in opts:
